@@ -378,12 +378,16 @@ def setWitness (tx : Tx) (idx : Nat) (w : List Bytes) : Tx :=
 inductive SighashErr where
   | configure            -- `instance.configure_tx_txin()` returned false; tap ignores that and goes on with a half-set
                          --   `Instance` (not modelled further)
+  | inputCount           -- "cannot compute the taproot signature hash of a transaction with N inputs: ..." exit(1)
+                         --   (instance.cpp:680-684: `tx->vin.size() != 1`)
   | step (e : StepErr)   -- an assertion inside `PrecomputedTransactionData::Init` / `SignatureHashSchnorr`
   | failed               -- "Failed to generate schnorr signature hash!" exit(1)
 deriving Repr, DecidableEq, Inhabited
 
-/-- tap.cpp:449-453 with `Instance::calc_sighash` (instance.cpp:678-691): `configure_tx_txin()`, the code separator
-    position forced to 0xffffffff, then `txdata = PrecomputedTransactionData(); txdata.Init(tx, {txin->vout[txin_vout_index]},
+/-- tap.cpp:449-453 with `Instance::calc_sighash` (instance.cpp:678-696): `configure_tx_txin()`, the code separator
+    position forced to 0xffffffff, then the refusal of a transaction that does not have exactly one input (the digest
+    commits to the outputs spent by all inputs and only one is known), then
+    `txdata = PrecomputedTransactionData(); txdata.Init(tx, {txin->vout[txin_vout_index]},
     has_preamble); if (sigver == BASE) sigver = TAPROOT; SignatureHashSchnorr(hash, execdata, tx, txin_index, 0x00, sigver,
     txdata, FAIL)`.  `tx` is the spending transaction with the witness already replaced. -/
 def calcSighash (h : HashCtx) (tc : TapCtx) (cr : SigCrypto) (tx txin : Tx) (idx vout : Nat) : Except SighashErr Bytes :=
@@ -391,6 +395,8 @@ def calcSighash (h : HashCtx) (tc : TapCtx) (cr : SigCrypto) (tx txin : Tx) (idx
   | none => .error .configure
   | some c =>
     let ed : ExecData := { c.execdata with codesepPos := 0xFFFFFFFF, codesepPosInit := true }
+    if tx.vin.length ≠ 1 then .error .inputCount
+    else
     match calcSighashTxData cr tx (txin.vout.getD vout default) c.hasPreamble with
     | .error e => .error (.step e)
     | .ok txdata =>
